@@ -4,6 +4,10 @@ cd /verif
 . scripts/env.sh
 flavour=$(python3 -c "
 import json
-a=json.load(open('$1')); m=json.load(open('/verif/scripts/flavours.json')); print(m.get(a['property'],'vmc'))")
+a=json.load(open('$1')); m=json.load(open('/verif/scripts/flavours.json'))
+fl=m.get(a['property'],'vmc').split('+')
+r=a.get('replay') or {}
+# a property decided by two binaries: schedule artefacts (harness + choices) belong to the last one
+print(fl[-1] if (isinstance(r,dict) and ('harness' in r or 'schedule' in r or 'choices' in r)) else fl[0])")
 scripts/build.sh "$flavour" >/dev/null 2>&1
 exec bin/$flavour replay "$1"
